@@ -94,6 +94,12 @@ func draw(t *rapid.T) *pbt.Case {
 	g := gen.Default(gen.Regular()).Boost(4, "grpccode", "grpcstatus", "gogostatus")
 	c := &pbt.Case{}
 	c.Spec = g.Draw(t, rapid.IntRange(1, maxB).Draw(t, "budget"))
+	// An explicitly attached codes.Unknown is a code like any other.
+	for _, n := range c.Spec.Nodes() {
+		if n.K == "grpccode" && rapid.IntRange(0, 3).Draw(t, "unknown") == 0 {
+			n.I[0] = int(codes.Unknown)
+		}
+	}
 	return c
 }
 
@@ -120,7 +126,18 @@ func check(c *pbt.Case, r *pbt.R) {
 		r.NonTrivial()
 		return
 	}
-	wantCode := extgrpc.GetGrpcCode(e0)
+	// The attached code, from the case description (not from the
+	// library): the outermost WrapWithGrpcCode layer of the visible chain.
+	wantCode := codes.Unknown
+	for _, l := range gen.Chain(c.Spec) {
+		if l.GRPC >= 0 {
+			wantCode = codes.Code(l.GRPC)
+			break
+		}
+	}
+	if lc := extgrpc.GetGrpcCode(e0); lc != wantCode {
+		r.Failf("GetGrpcCode is not the code attached by the outermost WrapWithGrpcCode", "got %v want %v\n%s", lc, wantCode, c.Spec)
+	}
 	if rawSt.Code() != wantCode {
 		r.Failf("the status code visible to callers is not the attached code", "raw status code %v, attached %v\n%s", rawSt.Code(), wantCode, c.Spec)
 	}
